@@ -1762,10 +1762,14 @@ func (vc *FuncVC) ret(b *ssa.BasicBlock, idx int, x *ssa.Return, st *State, defs
 		bterm, err := env.Bool(call.Args[1])
 		if err != nil {
 			// locals of the consequent are not in scope at this return: the antecedent must be false here
-			vc.oblige(kind, en.Label, "return site "+fmt.Sprint(vc.retN)+" is outside the scope of the clause's locals, so its antecedent is false here: "+en.Raw, x.Pos(), vc.reach[b], Not(a))
+			if o := vc.oblige(kind, en.Label, "return site "+fmt.Sprint(vc.retN)+" is outside the scope of the clause's locals, so its antecedent is false here: "+en.Raw, x.Pos(), vc.reach[b], Not(a)); o != nil {
+				o.LocalPost = true
+			}
 			continue
 		}
-		vc.oblige(kind, en.Label, "postcondition (with locals) at return site "+fmt.Sprint(vc.retN)+": "+en.Raw, x.Pos(), vc.reach[b], Implies(a, bterm))
+		if o := vc.oblige(kind, en.Label, "postcondition (with locals) at return site "+fmt.Sprint(vc.retN)+": "+en.Raw, x.Pos(), vc.reach[b], Implies(a, bterm)); o != nil {
+			o.LocalPost = true
+		}
 	}
 }
 
